@@ -24,7 +24,7 @@
 #define MAXK 16
 #define CANARY 0x5AFEC0DEu
 
-typedef struct Obj { int rank; int serial; int destroyed; int is_value; unsigned canary; } Obj;
+typedef struct Obj { int rank; int serial; int destroyed; int inserted; int is_value; unsigned canary; } Obj;      /* inserted / destroyed count insertion events: the same object may be inserted again */
 
 static int T, K, MODE;
 static const char *TN[] = {"BST", "RB", "AVL"};
@@ -37,7 +37,7 @@ static Obj *obj_new(int rank, int is_value)
 {
     if (pool_n == pool_cap) { fprintf(stderr, "object pool exhausted\n"); exit(2); }
     Obj *o = &pool[pool_n];
-    o->rank = rank; o->serial = (int)pool_n; o->destroyed = 0; o->is_value = is_value; o->canary = CANARY;
+    o->rank = rank; o->serial = (int)pool_n; o->destroyed = 0; o->inserted = 1; o->is_value = is_value; o->canary = CANARY;
     pool_n++;
     return o;
 }
@@ -73,10 +73,10 @@ static pint cmp_data(pconstpointer a, pconstpointer b, ppointer data)
     cmp_calls++;
     if (MODE != 1 && data != &cookie) viol("C12", "comparator-data", "comparator did not receive the user data pointer");
     if (x->canary != CANARY || y->canary != CANARY) { viol("C14", "key-altered", "comparator saw a key whose canary was overwritten"); return 0; }
-    if (x->destroyed || y->destroyed) {
+    if ((x->serial >= 0 && x->destroyed >= x->inserted) || (y->serial >= 0 && y->destroyed >= y->inserted)) {
         char s[64]; snprintf(s, sizeof s, "use-after-destroy/%s", cur_opname);
         viol("C14", s, "comparator was handed a key that had already been passed to the key destroy notifier (rank %d serial %d)",
-             x->destroyed ? x->rank : y->rank, x->destroyed ? x->serial : y->serial);
+             (x->serial >= 0 && x->destroyed >= x->inserted) ? x->rank : y->rank, (x->serial >= 0 && x->destroyed >= x->inserted) ? x->serial : y->serial);
     }
     return x->rank < y->rank ? -1 : (x->rank > y->rank ? 1 : 0);
 }
@@ -220,7 +220,7 @@ static void validate(PTree *t, const Ref *ref, const char *opk)
     for (i = 0; i < cnt && i < MAXK; i++) {
         Obj *o[2]; int w;
         o[0] = ks[i]; o[1] = vs[i];
-        for (w = 0; w < 2; w++) if (o[w] >= pool && o[w] < pool + pool_n && o[w]->destroyed) {
+        for (w = 0; w < 2; w++) if (o[w] >= pool && o[w] < pool + pool_n && o[w]->destroyed > o[w]->inserted - 1) {
             snprintf(s, sizeof s, "live-pair-destroyed/%s", opk);
             viol("C12", s, "the pair of rank %d is still in the tree (lookup and foreach return it) but its %s has been passed to the destroy notifier; dump %s", o[w]->rank, w ? "value" : "key", cb);
             snprintf(s, sizeof s, "destroyed-object-still-stored/%s", opk);
@@ -291,7 +291,7 @@ static void readonly_ops(PTree *t, const Ref *ref)
 }
 
 /* ---------- operations ---------- */
-enum { OP_INS, OP_REM, OP_CLR };
+enum { OP_INS, OP_REM, OP_CLR, OP_INSV, OP_INSK };      /* INSV / INSK: insert over an existing key handing in the value / key object that is already stored (inserted a second time) */
 typedef struct { unsigned char kind, rank; } Op;
 
 static PTree *tree_new(void)
@@ -333,10 +333,10 @@ static void expect_log_i(Obj **want, int nwant, const char *opk, const char *cls
     for (j = 0; j < dlog_n; j++) if (!used[j]) {
         Obj *o = dlog[j];
         viol("C14", s, "%s: destroy notifier received an object that did not leave the tree at this call (%s rank %d serial %d%s)", opk,
-             o && o->is_value ? "value" : "key", o ? o->rank : -1, o ? o->serial : -1, o && o->destroyed ? ", already destroyed before" : "");
+             o && o->is_value ? "value" : "key", o ? o->rank : -1, o ? o->serial : -1, o && o->destroyed >= o->inserted ? ", already destroyed before" : "");
         return;
     }
-    for (j = 0; j < dlog_n; j++) if (dlog[j] && dlog[j]->destroyed) viol("C14", s, "%s: object destroyed twice", opk);
+    for (j = 0; j < dlog_n; j++) if (dlog[j] && dlog[j]->destroyed >= dlog[j]->inserted) viol("C14", s, "%s: object destroyed more often than it was inserted", opk);
 }
 /* the objects handed to a notifier are marked destroyed whatever the verdict on the log was, so that validate() can tell
  * when a pair that is still in the tree (and that lookup / foreach hand out) has been destroyed */
@@ -352,9 +352,11 @@ static void apply(PTree *t, Ref *ref, Op op, int check)
 {
     Obj *want[2 * MAXK + 2]; int nw = 0, i;
     dlog_n = 0; dlog_overflow = 0;
-    if (op.kind == OP_INS) {
-        Obj *k = obj_new(op.rank, 0), *v = obj_new(op.rank, 1);
+    if (op.kind == OP_INS || op.kind == OP_INSV || op.kind == OP_INSK) {
         int existed = ref->key[op.rank] != NULL;
+        Obj *k = (op.kind == OP_INSK && existed) ? ref->key[op.rank] : obj_new(op.rank, 0), *v = (op.kind == OP_INSV && existed) ? ref->val[op.rank] : obj_new(op.rank, 1);
+        if (op.kind == OP_INSK && existed) k->inserted++;
+        if (op.kind == OP_INSV && existed) v->inserted++;
         cur_opname = "insert";
         p_tree_insert(t, k, v);
         if (existed) { want[nw++] = ref->key[op.rank]; want[nw++] = ref->val[op.rank]; }
@@ -413,7 +415,7 @@ static int hist_of(int s, Op *out) { int n = st[s].depth, i = n; while (s > 0) {
 static void hist_text(const Op *h, int n, char *buf, size_t sz)
 {
     size_t o = 0; int i; buf[0] = 0;
-    for (i = 0; i < n && o + 8 < sz; i++) o += snprintf(buf + o, sz - o, "%s%c%d", i ? "," : "", h[i].kind == OP_INS ? 'i' : h[i].kind == OP_REM ? 'r' : 'c', h[i].rank);
+    for (i = 0; i < n && o + 8 < sz; i++) o += snprintf(buf + o, sz - o, "%s%c%d", i ? "," : "", "ircvk"[h[i].kind], h[i].rank);
 }
 
 static PTree *rebuild(const Op *h, int n, Ref *ref)
@@ -441,7 +443,7 @@ static int do_replay(const char *ops)
     const char *p = ops;
     replay_mode = 1;
     while (*p && n < 256) {
-        h[n].kind = *p == 'i' ? OP_INS : *p == 'r' ? OP_REM : OP_CLR; p++;
+        h[n].kind = *p == 'i' ? OP_INS : *p == 'r' ? OP_REM : *p == 'v' ? OP_INSV : *p == 'k' ? OP_INSK : OP_CLR; p++;
         h[n].rank = (unsigned char)strtol(p, (char **)&p, 10); n++;
         if (*p == ',') p++;
     }
@@ -450,7 +452,7 @@ static int do_replay(const char *ops)
     for (i = 0; i < n; i++) {
         apply(t, &ref, h[i], 1);
         canon(t, cb, sizeof cb);
-        printf("step %d: %c%d -> %s\n", i + 1, "irc"[h[i].kind], h[i].rank, cb);
+        printf("step %d: %c%d -> %s\n", i + 1, "ircvk"[h[i].kind], h[i].rank, cb);
         readonly_ops(t, &ref);
     }
     free_check(t, &ref);
@@ -474,7 +476,7 @@ int main(int argc, char **argv)
     for (s = 0; s < hcap; s++) htab[s] = -1;
     { Op z = {0, 0}; st_add("-", -1, z, 0); }
     for (s = 0; s < nst; s++) {
-        Op h[64]; int n = hist_of(s, h), nops = 2 * K + 1, o;
+        Op h[64]; int n = hist_of(s, h), nops = 4 * K + 1, o;
         Ref ref; PTree *t; char cb[512];
         /* read-only alphabet + free, once per state */
         pool_mark = pool_n;
@@ -490,12 +492,14 @@ int main(int argc, char **argv)
         pool_n = pool_mark;          /* objects of a finished replay are dead: reuse pool space */
         for (o = 0; o < nops; o++) {
             Op op; char hb[1024]; int ns;
-            if (o < K) { op.kind = OP_INS; op.rank = o; } else if (o < 2 * K) { op.kind = OP_REM; op.rank = o - K; } else { op.kind = OP_CLR; op.rank = 0; }
+            if (o < K) { op.kind = OP_INS; op.rank = o; } else if (o < 2 * K) { op.kind = OP_REM; op.rank = o - K; } else if (o == 2 * K) { op.kind = OP_CLR; op.rank = 0; }
+            else if (o <= 3 * K) { op.kind = OP_INSV; op.rank = o - 2 * K - 1; } else { op.kind = OP_INSK; op.rank = o - 3 * K - 1; }
             pool_mark = pool_n;
             t = rebuild(h, n, &ref);
+            if ((op.kind == OP_INSV || op.kind == OP_INSK) && (ref.key[op.rank] == NULL || MODE == 1 || MODE == 2)) { p_tree_free(t); pool_n = pool_mark; continue; }     /* only over an existing key, only with notifiers */
             h[n] = op;
             hist_text(h, n + 1, hb, sizeof hb); strcpy(cur_hist, hb);
-            hout_progress("sig=%s/%s tree_bfs %d %d %d --replay %s", TN[T], op.kind == OP_INS ? "insert" : op.kind == OP_REM ? "remove" : "clear", T, K, MODE, cur_hist);
+            hout_progress("sig=%s/%s tree_bfs %d %d %d --replay %s", TN[T], op.kind == OP_REM ? "remove" : op.kind == OP_CLR ? "clear" : "insert", T, K, MODE, cur_hist);
             fail_flag = 0;
             apply(t, &ref, op, 1);
             n_trans++; n_trans_kind[op.kind]++;
@@ -508,8 +512,9 @@ int main(int argc, char **argv)
                         if (nst % 4096 == 1 && nst < 40000) hout_sample("state %s reached by [%s]", cb, hb);
                     }
                 }
-                dlog_n = 0; cur_opname = "free"; p_tree_free(t);
-                for (r = 0; r < dlog_n; r++) ;
+                if (op.kind == OP_INSV || op.kind == OP_INSK) free_check(t, &ref);      /* these lead to no new state: what the tree does with the twice-inserted object later is checked here */
+                else { dlog_n = 0; cur_opname = "free"; p_tree_free(t); }
+                (void)r;
             }
             /* a tree left after a violated transition is not explored further and not freed (may be corrupt) */
             pool_n = pool_mark;
